@@ -100,7 +100,7 @@ ASSUMPTIONS = ['writes after the close request may be written or dropped (statem
                'end-of-file on the read side of a File opened in a + mode is not a close request (File itself keeps such a file open at EOF): data '
                'written before and after it is owed; where in the file the bytes land (reads and writes share the file offset) is not judged']
 PROBES = ['cfg:faults', 'cfg:fault-free', 'kind:tcpserver', 'kind:unixserver', 'kind:tcpclient', 'kind:unixclient', 'kind:file',
-          'poller:Select', 'poller:Poll', 'poller:EPoll', 'partial-send-real', 'fault:short_write', 'fault:transient_send_error',
+          'poller:Select', 'poller:Poll', 'poller:EPoll', 'partial-send-real', 'fault:short_write', 'fault:zero_write', 'fault:transient_send_error',
           'fault:fatal_send_error', 'fault:fatal_send_error_once', 'accepted-after-fatal', 'accepted-after-fatal-signalled', 'close-deferred', 'close-immediate', 'close-performed', 'write-after-close-request', 'write-after-closed',
           'payload-empty', 'payload-large', 'fatal-signalled', 'post-payload-written', 'flushed-in-full', 'repeated-close',
           'repeated-close-while-deferred', 'close-all-while-deferred', 'eof-while-close-deferred', 'eof-before-close', 'cfg:greedy-big',
@@ -220,9 +220,15 @@ class Script:
             return None
         kind = self.kinds[ch.weighted([w for _, w in self.kinds], 'fault-kind')][0] if len(self.kinds) > 1 else self.kinds[0][0]
         if kind == 'short':
-            if n < 2:
+            if n < 1:
                 return None
-            k = [1, n - 1, max(1, n // 2), 1 + ch.draw(n - 1, 'short-k')][ch.draw(4, 'short-shape')]
+            # k of n bytes accepted, 0 <= k < n; k = 0 ("accept 0 of n", nothing taken and no errno) is the smallest partial send
+            shape = ch.weighted([2, 2, 2, 2, 1], 'short-shape')
+            if n < 2 and shape != 4:
+                return None
+            k = 0 if shape == 4 else [1, n - 1, max(1, n // 2), 1 + ch.draw(n - 1, 'short-k')][shape]
+            if k == 0:
+                ctx.stat('fault:zero_write')
             ctx.stat('fault:short_write')
             st['call']['short'] = k
             return ('short', k)
@@ -737,6 +743,9 @@ def _run(ctx):
             if act and act[0] == 'err':
                 raise OSError(act[1], 'simulated write error')
             if act and act[0] == 'short':
+                if act[1] == 0:
+                    on_accept(b'')
+                    return 0
                 data = bytes(data[:act[1]])
             try:
                 n = _real_fd_write(fd, data)
